@@ -341,6 +341,8 @@ def _path_job_inner(prefix):
             rec["trail"] = list(path.trail)
         out["solver"] += res.get("seconds", 0)
         out["records"].append(rec)
+        if res["status"] != "proved" and _os.environ.get("PYVC_FAILFAST"):
+            break  # mutation runs: one obligation that is not discharged settles the verdict
     # vacuity guard: everything on this path was discharged - for the right reason?
     out["vacuous"] = (bool(path.obligations) and info["outcome"] is not None
                       and all(r["status"] == "proved" for r in out["records"])
